@@ -49,6 +49,9 @@ def cases(tier, seed):
     for i in range(ns):
         n = int(rng.integers(5, 8))
         out.append({"t": "string", "n": n, "basis": "".join(rng.choice(list("XYZ"), size=n)), "seed": seed, "rep": i})
+    # beyond eight sites (indices above 255: a narrower integer type in an index computation shows only here)
+    for i, n in enumerate((9, 10, 9) if tier == "quick" else (9, 10, 9, 11, 10, 9, 12, 9, 10)):
+        out.append({"t": "string", "n": n, "basis": "".join(rng.choice(list("XYZ"), size=n, p=[0.25, 0.25, 0.5])), "seed": seed, "rep": 1000 + i})
     nu = 36 if tier == "quick" else 2500
     for i in range(nu):
         out.append({"t": "user", "n": int(rng.integers(1, 5)), "rep": i, "seed": seed})
